@@ -5,13 +5,23 @@
    value computed, by any model function over DS S is the one taken / computed over S); (ii) over the reals each lifted
    operation carries the derivative, and by induction forward mode is sound for every expression over the scalar
    operations under the side conditions that make it differentiable (C12_forward_mode_sound).
-   Partial: the model functions are Gallina functions over the scalar record, not values of the expression type, so
-   (ii) applies to them only operation by operation (no reflection of Gallina into `expr` is built), and atan2 / acos
-   are not in the expression language; "dual derivative = analytic Jacobian" for every operation is evaluated on the
-   implementation on every run (exactly over dual rationals against the model's DS instance, and in double). *)
+   (iii) by parametricity (Paramcoq's abstraction theorem for the model's entry point run_op, generated, axiom-free:
+   ParamBase / ParamDual / ParamRun): for EVERY group (bundles of any layout), EVERY opcode, mask, index and argument list the
+   dual-number run returns the same error as, or is entry by entry related to, the run of the same program over functions of
+   the perturbation size h (arithmetic pointwise, comparisons decided at h = 0): primal part = value at 0, dual part =
+   derivative at 0 whenever the entry's side conditions hold (no division by zero, sqrt away from 0, acos inside (-1, 1),
+   atan2 away from its cut and from x = 0); the function run read at 0 is the real-number run (so the primal parts of the
+   whole dual run are the real-number results), and with comparisons decided at h it is the real-number run at the perturbed
+   arguments.  (iv) the chain closed for one operation, SE2 exp on both branches (ParamSE2): the dual parts ARE the
+   derivatives of the real-number exp along the seeded direction, for theta^2 <> eps.
+   Partial: for the other operations the two remaining steps of (iv) — discharging the side conditions and the local agreement
+   of the function run with the true function of h (the comparisons an operation makes come out the same near h = 0) — are
+   not closed in general (they fail exactly on branch boundaries, where forward mode differentiates the branch taken);
+   "dual derivative = analytic Jacobian" for every operation is evaluated on the implementation on every run (exactly over
+   dual rationals against the model's DS instance, and in double). *)
 From Coq Require Import Reals ZArith List Lra.
 From Coquelicot Require Import Coquelicot.
-From Manif Require Import Scalar RInst Dual DualProofs.
+From Manif Require Import Scalar RInst Dual DualProofs ParamBase ParamDual Mat Consts Group SO2 SE2 Run ParamRun ParamSE2 ParamChain.
 Import ListNotations.
 Local Open Scope R_scope.
 
@@ -52,3 +62,48 @@ Print Assumptions C12_forward_mode_sound.
 (* non-vacuity: d/ds [ sqrt((2+s)*(2+s) + 5) / (cos(2+s) + 3) ] at 0 is computed by evaluation over dual numbers *)
 Example C12_example : defined [2] (EDiv (ESqrt (EAdd (EMul (EVar 0) (EVar 0)) (EConst 5))) (EAdd (ECos (EVar 0)) (EConst 3))).
 Proof. cbn. repeat split; try lra. pose proof (COS_bound 2). lra. Qed.
+
+(* ---- parametricity: every operation of the model at once ---- *)
+Theorem C12_every_operation_dual_tracks (eps : R) g op mask z (args1 : list (list (R * R))) (args2 : list (list fk)) :
+  Forall2 (Forall2 trk) args1 args2 ->
+  same_result (Forall2 (Forall2 trk)) (@run_op (DS RS) (eps, 0) g op mask z args1) (@run_op FS (fconst eps) g op mask z args2).
+Proof. exact (run_op_dual_tracks eps g op mask z args1 args2). Qed.
+Theorem C12_every_operation_dual_is_derivative (eps : R) g op mask z (x dx : list (list R)) :
+  same_result (Forall2 (Forall2 trk)) (@run_op (DS RS) (eps, 0) g op mask z (seed x dx)) (@run_op FS (fconst eps) g op mask z (lineF x dx)).
+Proof. exact (run_op_dual_is_derivative eps g op mask z x dx). Qed.
+Theorem C12_every_operation_primal (eps : R) g op mask z (x dx : list (list R)) :
+  same_result (Forall2 (Forall2 (fun (d : R * R) (r : R) => fst d = r)))
+    (@run_op (DS RS) (eps, 0) g op mask z (seed x dx)) (@run_op RS eps g op mask z (at_h 0 x dx)).
+Proof. exact (run_op_primal eps g op mask z x dx). Qed.
+Theorem C12_function_run_at_h (h0 eps : R) g op mask z (x dx : list (list R)) :
+  same_result (Forall2 (Forall2 (evh h0))) (@run_op (FSh h0) (fconst eps) g op mask z (lineF x dx)) (@run_op RS eps g op mask z (at_h h0 x dx)).
+Proof. exact (run_op_fsh h0 eps g op mask z (lineF x dx) (at_h h0 x dx) (lineF_at_h h0 x dx)). Qed.
+Theorem C12_SE2_exp_dual_is_derivative eps x y th dx dy dth j : 0 < eps -> th * th <> eps -> (j < 4)%nat ->
+  is_derive (fun h => nth j (se2_exp RS eps [x + h * dx; y + h * dy; th + h * dth]) 0) 0
+            (snd (nth j (se2_exp (DS RS) (eps, 0) [(x, dx); (y, dy); (th, dth)]) (0, 0))).
+Proof. intros H. exact (se2_exp_dual_is_derivative eps x y th dx dy dth H j). Qed.
+(* closing the chain for an operation: local (syntactic) agreement of the run with comparisons decided at h and at 0, plus the
+   entry's side conditions, give: dual part = derivative of the REAL-NUMBER run's entry along the seeded direction *)
+Theorem C12_chain (eps : R) g op mask z (x dx : list (list R)) outD i j :
+  locally 0 (fun h => @run_op (FSh h) (fconst eps) g op mask z (lineF x dx) = @run_op FS (fconst eps) g op mask z (lineF x dx)) ->
+  @run_op (DS RS) (eps, 0) g op mask z (seed x dx) = Ok outD -> (i < length outD)%nat -> (j < length (nth i outD []))%nat ->
+  fok (entry (fconst 0) (@run_op FS (fconst eps) g op mask z (lineF x dx)) i j) ->
+  is_derive (fun h => entry 0 (@run_op RS eps g op mask z (at_h h x dx)) i j) 0 (snd (nth j (nth i outD []) (0, 0))).
+Proof. exact (run_op_chain eps g op mask z x dx outD i j). Qed.
+Theorem C12_chain_SE2_exp eps x y th dx dy dth j : 0 < eps -> th * th <> eps -> (j < 4)%nat ->
+  is_derive (fun h => entry 0 (@run_op RS eps GSE2 OExp [] 0%Z (at_h h [[x; y; th]] [[dx; dy; dth]])) 0 j) 0
+    (snd (entry (0, 0) (@run_op (DS RS) (eps, 0) GSE2 OExp [] 0%Z (seed [[x; y; th]] [[dx; dy; dth]])) 0 j)).
+Proof. exact (chain_SE2_exp eps x y th dx dy dth j). Qed.
+Theorem C12_chain_SE2_act eps tx ty c s px py dtx dty dc ds dpx dpy j : (j < 2)%nat ->
+  is_derive (fun h => entry 0 (@run_op RS eps GSE2 OAct [] 0%Z (at_h h [[tx; ty; c; s]; [px; py]] [[dtx; dty; dc; ds]; [dpx; dpy]])) 0 j) 0
+    (snd (entry (0, 0) (@run_op (DS RS) (eps, 0) GSE2 OAct [] 0%Z (seed [[tx; ty; c; s]; [px; py]] [[dtx; dty; dc; ds]; [dpx; dpy]])) 0 j)).
+Proof. exact (chain_SE2_act eps tx ty c s px py dtx dty dc ds dpx dpy j). Qed.
+Print Assumptions C12_every_operation_dual_is_derivative.
+Print Assumptions C12_SE2_exp_dual_is_derivative.
+(* what the relation says about one entry *)
+Example C12_trk_reading d f : trk d f -> fn f 0 = fst d /\ (fok f -> is_derive (fn f) 0 (snd d)).
+Proof. intros H. exact H. Qed.
+(* non-vacuity: SO2 compose over dual numbers, seeded in the first argument: the run succeeds and every side condition holds
+   wherever no renormalisation division by zero occurs; here the simplest case, the identity of R3 translated *)
+Example C12_seed_line : Forall2 (Forall2 trk) (seed [[1; 2]] [[3; 4]]) (lineF [[1; 2]] [[3; 4]]).
+Proof. exact (seed_line_related [[1; 2]] [[3; 4]]). Qed.
